@@ -555,6 +555,14 @@ func checkWait(t ev.T, test string, c WaitCase) {
 	if hint {
 		switch c.HeaderIn {
 		case "seconds":
+			if v, ok := parseSeconds(c.Header); ok && !v.IsInt64() && v.Sign() > 0 {
+				// a number of seconds beyond 64 bits (the quantifier goes up to 2^63) is a delay all the same: saturated like
+				// the largest representable ones
+				if int64(got) < (math.MaxInt64/1_000_000_000)*1_000_000_000 {
+					ev.Fail(t, prop, test, c, "Retry-After: %s s (beyond a 64-bit integer) on %d does not replace the wait: got %v, want the saturated maximum", c.Header, c.Status, got)
+				}
+				return
+			}
 			if v, ok := parseSeconds(c.Header); ok && v.IsInt64() {
 				switch {
 				case v.Sign() < 0:
